@@ -36,7 +36,7 @@ func (c *chunk) renderLabel(scriptName string, isGlobal bool, sb *strings.Builde
 	}
 }
 
-func (c *chunk) renderStatements(sb *strings.Builder, chunkLabels map[string]struct{}, textLabels map[string]struct{}, enableLineMarkers bool, inputFilepath string) error {
+func (c *chunk) renderStatements(sb *strings.Builder, chunkLabels map[string]struct{}, textLabels map[string]struct{}, movementLabels map[string]struct{}, enableLineMarkers bool, inputFilepath string) error {
 	// Render basic non-branching commands.
 	for _, stmt := range c.statements {
 		commandStmt, ok := stmt.(*ast.CommandStatement)
@@ -53,6 +53,9 @@ func (c *chunk) renderStatements(sb *strings.Builder, chunkLabels map[string]str
 				}
 				if _, ok := textLabels[labelStmt.Name.Value]; ok {
 					return parser.NewParseError(labelStmt.Token, fmt.Sprintf("duplicate text label '%s'. Choose a unique label that won't clash with the auto-generated text labels", labelStmt.Name.Value))
+				}
+				if _, ok := movementLabels[labelStmt.Name.Value]; ok {
+					return parser.NewParseError(labelStmt.Token, fmt.Sprintf("duplicate movement label '%s'. Choose a unique label that won't clash with the auto-generated movement labels", labelStmt.Name.Value))
 				}
 				tryEmitLineMarker(sb, labelStmt.Token, enableLineMarkers, inputFilepath)
 				sb.WriteString(renderLabelStatement(labelStmt))
